@@ -76,7 +76,7 @@ structure Opt where
   options : List EOpt := []
 deriving Repr, DecidableEq
 
-inductive DKind | rrsig | nsec | nsec3 | other
+inductive DKind | rrsig | nsec | nsec3 | other | cname
 deriving Repr, DecidableEq
 
 /-- A record of a section.  `opt o own`: an OPT record; `own = true` means it
@@ -818,6 +818,47 @@ def cacheHit (L Lu Lp : Msg → Nat) (cfg : Cfg) (secretLen : Nat) (w : Writer) 
         else match writeWire (fun x => Lp b + ((x.extra.filter RR.isOpt).map (rrLen true)).sum) cfg w b info with
           | some r => some r
           | none => msgRoute
+  | _, _ => none
+
+/-! ### the failover middleware (`failover.ResponseWriter.WriteMsg`) and the DoH wire-format reply -/
+
+/-- what leaves failover for a downstream reply `m`, given what each
+configured fallback server answered (`none` = no usable DNS response). Only an
+RD=1 SERVFAIL with a question is retried; the first fallback answer that is not
+itself SERVFAIL wins, else the first SERVFAIL one, else `m`. Whatever is
+taken from a fallback is stamped with the downstream reply's ID and CD. -/
+def failoverPick (m : Msg) : List (Option Msg) → Option Msg → Msg
+  | [], firstFail => (match firstFail with | some f => f | none => m)
+  | none :: t, firstFail => failoverPick m t firstFail
+  | some r :: t, firstFail =>
+    let r' := { r with id := m.id, fl := { r.fl with cd := m.fl.cd } }
+    if r'.rcode = rcodeServFail then failoverPick m t (match firstFail with | some f => some f | none => some r')
+    else r'
+
+def failover (m : Msg) (fallbacks : List (Option Msg)) : Msg :=
+  if m.question.isNone || fallbacks.isEmpty then m
+  else if m.rcode ≠ rcodeServFail || !m.fl.rd then m
+  else failoverPick m fallbacks none
+
+/-- `doh.HandleWireFormat`: the reply body is the handler's message, packed as it is (GET and POST alike). -/
+def dohWireReply (m : Msg) : Msg := m
+
+/-- the cache handler serving a bare-alias entry from bytes (`serveChaseHit`:
+`collectWireChase` over the alias and its cached target, `composeWireChase`,
+`CommitWire`); `none` = the byte route declines (the message route, which needs
+the internal queryer, takes over). Sizes are not modelled here (inputs stay far
+from any limit). -/
+def chaseHit (cfg : Cfg) (secretLen : Nat) (w : Writer) (baseReady : Bool) (alias target : Msg) (q' : Query) : Option Msg :=
+  match newWEntry alias, newWEntry target with
+  | some a, some t =>
+    (match wireReady cfg secretLen w baseReady with
+     | none => none
+     | some cp =>
+       match wireBodyFor a cp.do_, wireBodyFor t cp.do_ with
+       | some (ab, af), some (tb, tf) =>
+         let p := composeChase ab [ab.fl.ad, tb.fl.ad] (ab.answer ++ tb.answer) (af || tf) q'
+         writeWire (fun _ => 0) cfg w p.1 { p.2 with ede := a.ede }
+       | _, _ => none)
   | _, _ => none
 
 end SdnsVerif.Model.Edns
